@@ -116,6 +116,28 @@ main(int argc, char** argv)
                               p.has_filename(), p.has_stem(), p.has_extension(), p.is_absolute()};
       for (int i = 0; i < 9; ++i) if (has[i] != stdhas[i]) printf(" SPEC-FAIL:query-%d", i);
       if (zix_path_is_relative(s) != p.is_relative()) printf(" SPEC-FAIL:is_relative");
+      // the same buffer edited in place and asked again: an answer may not be reused from before the edit (a declaration
+      // that promises more than `pure` lets the compiler do exactly that)
+      if (len) {
+        const char saved = s[0], saved_last = s[len - 1];
+        for (const char c : {'/', '.', 'a'}) {
+          s[0] = c;
+          const fs::path q(std::string(s, len));
+          if (zix_path_is_absolute(s) != q.is_absolute() || zix_path_is_relative(s) != q.is_relative() ||
+              zix_path_has_root_directory(s) != q.has_root_directory() || zix_path_has_root_path(s) != q.has_root_path() ||
+              zix_path_has_relative_path(s) != q.has_relative_path() || zix_path_has_parent_path(s) != q.has_parent_path())
+            printf(" SPEC-FAIL:stale-answer-after-editing-the-first-byte-to-%c", c);
+        }
+        s[0] = saved;
+        for (const char c : {'/', '.', 'a'}) {
+          s[len - 1] = c;
+          const fs::path q(std::string(s, len));
+          if (zix_path_has_filename(s) != q.has_filename() || zix_path_has_stem(s) != q.has_stem() || zix_path_has_extension(s) != q.has_extension() ||
+              view_str(zix_path_filename(s)) != q.filename().string() || view_str(zix_path_extension(s)) != q.extension().string())
+            printf(" SPEC-FAIL:stale-answer-after-editing-the-last-byte-to-%c", c);
+        }
+        s[len - 1] = saved_last;
+      }
       const ZixStringView vs[8] = {rn, rd, rp, rel, par, fn, st, ext};
       for (const ZixStringView& v : vs) {
         // every view, the empty ones too, is a slice of the argument: [data, data+length) lies within [s, s+len]
